@@ -516,3 +516,17 @@ Proof.
   split; [rewrite Hext; rewrite nth_error_app1; [exact Hnm | apply nth_error_Some; rewrite Hnm; discriminate]|].
   rewrite M1 in Hfi. exact Hfi.
 Qed.
+
+(** what "the identifier [ident] of a definition is mapped to original position [p] under name [nm]"
+    means on the buffers a [SourceWriter] run ends with *)
+Definition mapped_in (fmap : option (list N)) (st : sw) (ident : str) (p : pos) (nm : str) : Prop :=
+  exists es e pre post k,
+    decode_mappings (mbuf (sw_map st)) = Some (map seg_of_entry es) /\ In e es /\
+    c_buf (sw_cur st) = pre ++ post /\ end_pos pre = epos e /\ is_prefix (hd [] (split_on LF ident)) post = true /\
+    e_ol e = p_line p /\ e_oc e = p_col p /\ e_ni e = Some k /\
+    nth_error (nm_all (sw_names st)) (N.to_nat k) = Some nm /\
+    fmap_lookup fmap (p_file p) = Some (e_fi e).
+
+Lemma mapped_in_of_write_for : forall fmap os st ident p nm,
+  sw_run fmap os = Some st -> In (WF ident p (Some nm)) os -> p_builtin p = false -> mapped_in fmap st ident p nm.
+Proof. intros. unfold mapped_in. eapply named_write_for_mapped_lemma; eassumption. Qed.
